@@ -55,6 +55,7 @@ class Checker(CommandMixin):
         self.started_wall = None
         self.quiesced_at = None
         self.epoch = 0          # bumps at every sweep / restart (C02 non-triviality)
+        self.backward_jump = False
         self.lost_np = {}       # (app, name) -> mailbox of a nameplate a sweep removed against the rules
         if initial is not None:
             self._seed(initial)
@@ -258,7 +259,8 @@ class Checker(CommandMixin):
                            % (e.get("type"), e.get("text"), e.get("where")))
             self._track_incarnations(ev.pre, ev.post, ev)
         elif kind == "clock_jump":
-            pass
+            if (ev.notes.get("delta") or 0) < 0:
+                self.backward_jump = True
         return self.viol[n0:]
 
     def _quiet_event(self, ev, what):
@@ -470,6 +472,11 @@ class Checker(CommandMixin):
                     self.probes["sweep_old_subscriber_kept"] += 1
                 if m.msgs:
                     kept_with_msgs = True
+                if (pm.updated is not None and m.updated is not None and pm.updated < m.updated - EPS
+                        and not self.backward_jump):
+                    self.v("C12", "activity-stamp-not-moved-back", ev,
+                           "sweep at %.3f moved the activity stamp of mailbox %r back from %.3f to %.3f"
+                           % (now, k, m.updated, pm.updated))
                 if ([s.canon() for s in m.sides] != [s.canon() for s in pm.sides]
                         or sorted(map(json.dumps, m.msgs)) != sorted(map(json.dumps, pm.msgs))
                         or m.for_nameplate != pm.for_nameplate):
